@@ -27,11 +27,12 @@ CHECKS["C15"] = {
     "assumptions": ["container/list, container/heap and sync are trusted",
                     "concurrent half explores interleavings at the injected points only (DESIGN.md 4.4)"],
     "units": [
+        {"pkg": ".", "run": "^TestVerif_C15_", Q: {"timeout": 600}, T: {"timeout": 3000, "shards": 4}},
         {"pkg": "internal/queue", "run": "^TestVerif_C15_Seq", Q: {"timeout": 300}, T: {"timeout": 1500, "shards": 8}},
         {"pkg": "internal/queue", "run": "^TestVerif_C15_Conc", "inst": ["internal/queue/simple.go", "internal/queue/priority.go"],
          Q: {"timeout": 300}, T: {"timeout": 3000, "shards": 11}},
     ],
-    "mandatory_labels": {"all": ["seq-simple/wait-nonempty", "seq-priority/ties", "seq-priority/nextall", "seq-priority/burst-of-parked-items",
+    "mandatory_labels": {"all": ["seq-simple/wait-nonempty", "seq-priority/ties", "seq-priority/nextall", "seq-priority/burst-of-parked-items", "message-items/counter-zero",
                                  "conc/schedules", "conc/add-between-unlock-and-select", "conc/with-cancel", "prio-conc/add-during-flush", "prio-conc/dfs-schedules"]},
 }
 
@@ -460,7 +461,7 @@ _ADDED6 = {
     "C12": "Descriptors are derived from every accepted way of holding a multi-member group in each case, including invitations that spell out the optional sign_pub / link_key fields.",
     "C13": "The whole (since, until, reverse) cube also over merged logs of two writers with concurrent entries, on two replicas.",
     "C14": "Service layer: the stand-alone push service created on the account's root datastore (its default secret store next to the application's), pushes of one sender opened through the service, through the application's store or arriving through the log with generated distances between counters (reply fields and AlreadyReceived flag checked).",
-    "C15": "Priority counters over the whole uint64 range (the counter comes from the sender's header); bursts of 20-300 parked items followed by partial drains in both sequential machines; the metrics callback of the simple queue is a schedule point in the controlled schedules.",
+    "C15": "Priority counters over the whole uint64 range (the counter comes from the sender's header); bursts of 20-300 parked items followed by partial drains in both sequential machines; the metrics callback of the simple queue is a schedule point in the controlled schedules. `TestVerif_C15_MessageItems` (root package): the message store's own per-device queue over its item type, counters 0 .. 2^64-1.",
     "C16": "The controlled scheduler models sync.RWMutex writer preference (readers arriving after a waiting writer wait behind it); the peer cache scenarios add readers (GetPeersForTopics / GetPeers) next to updater and waiters. Tracker scenarios with two waiters of one group: the list handed to a waiter must read the same after other tasks ran; two updaters changing two peers that share two groups.",
     "C17": "Marshaler histories also present a peer with a heads message it marshalled itself in the period before its last rotation (accepted during the grace period). `TestVerif_C17_ConcurrentResolvers`: 4-16 tasks resolve 100-600 topics of one rotation instance right after a period boundary (a fatal data race on its maps is a crash pattern).",
     "C18": "Round trips also read every frame of a type into the same destination object (the usual receive loop), with frames of length zero after longer ones. `TestVerif_C18_FullPair`: the full writer / reader pair over a packet transport, messages up to exactly the limit. Round trips interleave writes of messages that cannot be encoded (they fail and must leave nothing on the stream).",
